@@ -22,11 +22,11 @@ def generate(ctx, sizes, quick):
     return allr
 
 
-def run_driver(ctx, replays, kv="memory", tag="", which="both"):
+def run_driver(ctx, replays, kv="memory", tag="", which="both", race=False, extra=(), stderr_sink=None):
     """Runs cmd/c05 over the replays. A death of the driver inside perkeep code (panic / fatal error) is an
     observation: it is reported as a discrepancy and the remaining replays are run by a fresh process."""
     import re
-    drv = ctx.build("c05")
+    drv = ctx.build("c05", race=race)
     o5, o6 = ctx.path("c05%s.ndjson" % tag), ctx.path("c06%s.ndjson" % tag)
     for f in (o5, o6):
         open(f, "w").close()
@@ -38,7 +38,10 @@ def run_driver(ctx, replays, kv="memory", tag="", which="both"):
         p5, p6 = ctx.path("p5%s_%d.ndjson" % (tag, part)), ctx.path("p6%s_%d.ndjson" % (tag, part))
         rc, so, se = ctx.run([drv, "-replays", rf, "-out05", p5, "-out06", p6, "-kv", kv,
                               "-do05=%s" % ("true" if which in ("both", "05") else "false"), "-do06=%s" % ("true" if which in ("both", "06") else "false"),
-                              "-secring", os.path.join(vlib.REPO, "pkg/jsonsign/testdata/test-secring.gpg")], timeout=2400, ok_codes=None)
+                              "-secring", os.path.join(vlib.REPO, "pkg/jsonsign/testdata/test-secring.gpg")] + list(extra), timeout=2400, ok_codes=None,
+                             env=({"GORACE": "exitcode=0"} if race else None))
+        if stderr_sink is not None:
+            stderr_sink.append(se)
         done = 0
         for src, dst in ((p5, o5), (p6, o6)):
             if os.path.exists(src):
